@@ -1,5 +1,5 @@
 """C13 — releasing or waking never touches memory its owner may already have reclaimed."""
-from props.shared import mu_groups, cnt_groups
+from props.shared import mu_groups, cnt_groups, sem_wait_groups, note_tree_groups
 
 ID = "C13"
 LEVEL = "proof"
@@ -9,13 +9,15 @@ EXPLANATION = (
     "holds neither the lock nor the queue spinlock (from there another thread can acquire, learn it is the last user and free the "
     "memory) and asserts at every later atomic access to the word that the mutex is not dead; proved on the real bodies for every "
     "word value and every interference. Waker clause: nsync_counter_add unlinks, clears the waiting flag and posts the semaphore of "
-    "every waiter while HOLDING counter_mu, which the waiter's dequeue also takes (hook obligations at the flag store and at the post).")
+    "every waiter while HOLDING counter_mu, which the waiter's dequeue also takes (hook obligations at the flag store and at the post); the "
+    "cancellable wait of sem_wait.c leaves its stack record on no list of the note when it returns (the list is what it was, or was emptied "
+    "by a notifier) and never sleeps holding the note's lock; note_notify_child posts waiters only after clearing their flags (bounded tree group).")
 ASSUMPTIONS = ["accesses to mu->waiters (a plain field) after the releasing step are not tracked by the hook; on the paths proved it is read only under the spinlock"]
 NOT_DECIDED = ["cv wakers (wake_waiters) and non-native nsync_wait_n records: see DESIGN.md section 7.3",
-               "note_notify_child and the cancellable wait of sem_wait.c (groups pending)"]
+               "nsync_mu_unlock_slow_'s own body (reached through its contract here)"]
 TRUSTED = []
 
 
 def groups(tier):
     return mu_groups(tags=["C13"], which=["mu.unlock", "mu.runlock", "mu.unlock_without_wakeup", "mu.release_spinlock"]) + \
-           cnt_groups(tags=["C13"], which=["counter.add"])
+           cnt_groups(tags=["C13"], which=["counter.add"]) + sem_wait_groups(tags=["C13"]) + note_tree_groups(tags=["C13", "C08"])
